@@ -58,4 +58,5 @@ def streams(tier, rng, P, only=None, cases=None):
         return dict(req="run " + hx(src), src=src, show=src, sexp=mml.sexp(prog), key=case.get("key", "") + "-shrunk")
     s1.ast_rebuild = rebuild
     s2 = execstream.exec_stream(tier, rng, P, only, cases)
-    return [s for s in (s1, s2) if only in (None, s.name)]
+    s3 = execstream.compile_stream(tier, rng, P, only, cases)
+    return [s for s in (s1, s2, s3) if only in (None, s.name)]
